@@ -44,19 +44,22 @@ def main(ctx):
             ctx.fail("C08.family-totality", f"Failure({name})", "generation refused with an undocumented error type")
     by_site = {}
     for text, formats, exc, site in totals["crashed"]:
-        by_site.setdefault((exc, site), []).append((text, formats))
-    for (exc, site), lst in sorted(by_site.items()):
+        out_name = text.split("(")[0].strip()
+        out_fmt = dict(formats).get(out_name, "")
+        out_modes = "".join(ch for ch in out_fmt if ch in "ds")
+        by_site.setdefault((exc, site, out_modes), []).append((text, formats))
+    for (exc, site, out_modes), lst in sorted(by_site.items()):
         text, formats = lst[0]
         ctx.findings.append(
             Finding(
                 "C08.family-totality",
-                f"{exc}@{site}",
+                f"{exc}@{site} | output modes {out_modes or '(scalar)'}",
                 f"{len(lst)} problems of the family crash instead of returning code or a documented Failure, e.g. "
                 f"{text} | {','.join(f'{n}:{f}' for n, f in formats)}",
             )
         )
         ctx.rule("C08.family-totality").obligations += len(lst)
-    ctx.extra["crash_sites"] = {f"{e}@{s}": len(v) for (e, s), v in by_site.items()}
+    ctx.extra["crash_sites"] = {f"{e}@{s} | {m}": len(v) for (e, s, m), v in by_site.items()}
 
 
 if __name__ == "__main__":
